@@ -111,7 +111,7 @@ def run(plan):
         if not bad_frames:
             raise RuntimeError("no corrupted frame was produced")
         if kind not in ("all",) and len(bad_frames[0]) != FRAME_LEN[kind]:
-            raise RuntimeError(f"frame length for {kind} is {len(bad_frames[0])}, table says {FRAME_LEN[kind]}")
+            w.probe("frame_length_differs_from_enumeration_table")     # positions are taken modulo the real length
         invalid = [not codec.response_valid_by_stated_rule(f) for f in bad_frames]
         snap1 = snapshot(ac)
 
